@@ -981,7 +981,10 @@ def history_program(draw, max_steps=14, max_elems=16, with_shape_assign=True, wi
         shape = draw_shape(draw, max_ndim=3, max_side=4, cap=max_elems)
         if i == 0 and not shape:
             shape = [draw(st.integers(2, 5))]
-        b.leaf(kind, shape)
+        order = "F" if (len(shape) >= 2 and draw(st.integers(0, 3)) == 0) else "C"
+        if order == "F":
+            b.labels.add("F_ordered_leaf")
+        b.leaf(kind, shape, order=order)
     nsteps = draw(st.integers(2, max_steps))
     fns = [f for f, w in HISTORY_STEPS for _ in range(w) if with_shape_assign or f is not step_shape_assign]
     if with_fail:
@@ -998,7 +1001,7 @@ def history_program(draw, max_steps=14, max_elems=16, with_shape_assign=True, wi
 
 # ------------------------------------------------------------------------------- failing statements (C13)
 
-FAIL_KINDS = ["op_shape", "bad_axis", "view_bad_index", "view_bad_reshape", "view_bad_perm", "setitem_shape",
+FAIL_KINDS = ["shape_assign_copy", "op_shape", "bad_axis", "view_bad_index", "view_bad_reshape", "view_bad_perm", "setitem_shape",
               "setitem_oob", "out_shape", "readonly_target", "aug_shape", "constant_false_int", "cast_out",
               "bad_dtype", "matmul_shape"]
 
@@ -1091,6 +1094,14 @@ def step_fail(b: Builder):
             if d(st.booleans()):
                 p["via"] = "np"
             inner = {"k": "inplace", "kind": "out", "op": "add", "target": t, "args": [t, bad], "p": p}
+    elif kind == "shape_assign_copy":
+        # assigning a shape that would need a copy (non-contiguous tensor): NumPy refuses
+        cands = [h for h in writable_targets(b) if b.val(h).ndim >= 2 and not b.val(h).flags.c_contiguous and b.val(h).size > 1]
+        if not cands:
+            return None
+        t = b.pick(cands)
+        size = int(np.prod(b.shape(t)))
+        inner = {"k": "inplace", "kind": "shape", "target": t, "p": {"shape": [size]}}
     elif kind == "readonly_target":
         ro = [h for h, v in r.env.items() if r.is_tensor[h] and not r.isint[h] and not v.flags.writeable and v.size > 0]
         if not ro:
